@@ -29,6 +29,10 @@ CONSTANTS Sizes,        \* abstract subtable sizes
           MfsChoices,   \* subset of BOOLEAN: lookups with a markFilteringSet word
           ScriptSizes,  \* sizes of the encoded script list
           FeatSizes,    \* sizes of the encoded feature list
+          Types,        \* lookup types of the lookups ({0}: the type is left to the harness)
+          ExtType,      \* 7 (GSUB) or 9 (GPOS): the lookup type of extension lookups
+          Recognised,   \* lookup types from whose subtables the encoder can tell GSUB from GPOS
+                        \* (lookup.go:309-322 finds the table kind by looking at the subtables)
           EmitCases,    \* TRUE: print every terminal state as a replay case
           Fix28         \* FALSE: the pinned code.  TRUE: the design of proposed-fixes/C08-1.diff
                         \* (subtable offsets count for isTooLarge; the biggest lookup gets
@@ -45,7 +49,7 @@ VARIABLES ll, S, F,     \* the input: lookups, script list size, feature list si
           res           \* what is written: positions and offset fields
 vars == <<ll, S, F, pc, chunks, order, lastPos, repl, big, tooLarge, res>>
 
-Lookups == UNION {[mfs : MfsChoices, subs : [1..k -> Sizes]] : k \in 1..MaxSubs}
+Lookups == UNION {[mfs : MfsChoices, subs : [1..k -> Sizes], type : Types] : k \in 1..MaxSubs}
 Plans   == UNION {[1..n -> Lookups] : n \in 1..MaxLookups}
 
 NoRes == [total |-> 0]
@@ -151,6 +155,12 @@ Layout ==
               spos    |-> [i \in 1..N |-> [j \in 1..Len(ll[i].subs) |-> Pos("sub", i, j)]],
               \* the lookup type is rewritten iff the first subtable has an extension record
               retyped |-> {i \in 1..N : Has("ext", i, 1)},
+              \* the lookup type written in the Lookup table, and the type carried by its extension records;
+              \* the extension type is known only if some subtable of the list reveals the table kind
+              wtype   |-> [i \in 1..N |-> IF Has("ext", i, 1)
+                                           THEN (IF \E k \in 1..N : ll[k].type \in Recognised THEN ExtType ELSE 0)
+                                           ELSE ll[i].type],
+              etype   |-> [i \in 1..N |-> ll[i].type],
               \* the three header offsets: 10, 10+S, 10+S+F
               hdr     |-> <<GtabHeaderLen, GtabHeaderLen + S, GtabHeaderLen + S + F>> ]
   /\ pc' = "done"
@@ -197,6 +207,15 @@ CodeInvOtherSubOffsets == Done =>
 
 \* the design of the proposed fix satisfies the demand on every plan
 FixInvSubOffsets == (Fix28 /\ Done) => \A i \in 1..N : \A j \in 1..Len(ll[i].subs) : res.rpos[i][j] - res.tpos[i] <= Max16
+
+\* LAW: extension wrapping is transparent.  A reader resolves a lookup of type ExtType to the type carried
+\* by its extension records; for every lookup type T, type(ext(L)) = type(L).  It needs wtype = ExtType for
+\* every wrapped lookup, whatever the types in the list (also when only one type occurs).
+ReadType(i) == IF res.wtype[i] = ExtType THEN res.etype[i] ELSE res.wtype[i]
+ExtTransparent == Done => \A i \in 1..N :
+  /\ ReadType(i) = ll[i].type
+  /\ i \in res.retyped => res.wtype[i] = ExtType
+  /\ i \notin res.retyped => res.wtype[i] # ExtType
 
 \* within the bounds of the model the encoder never refuses
 CodeInvNoPanic == pc # "panic"
